@@ -106,7 +106,7 @@ def e_datum(ctx, n):
             continue
         if len(oks) != len(results):
             # a constraint set that gama refuses (e.g. collinear / insufficient) is not admissible: skip, counted
-            ctx.hist("skipped_inadmissible", 1)
+            ctx.skipped("skipped_inadmissible", {"gkf": txts})
             continue
         if t == 0:
             ctx.sample({"free_network": enet.summarize(net), "constraint_sets": sets})
